@@ -161,12 +161,14 @@ that return a session or add conditions (C19, C01, C15), used slice and map-slic
 the unique tag of a shadowed field (C20), same-named relations in embedded structs (C11, two), a belongs-to
 key with a zero part under FullSaveAssociations (C12), scopes registered by the scopes of a grouped handle
 (C02); plus KF-C12-8 and KF-C02-1..4. Most of these came from the testers' asides or from the sub-agents that
-widened the workloads, not from a seeded change itself. Round 8 (defects 84-96): Begin on a handle that
+widened the workloads, not from a seeded change itself. Round 8 (defects 84-101): Begin on a handle that
 carries an error (C04), templates mixing `?` and `@name` (C01), the error of one owner lost in association mode
 over several owners and AfterFind on the unused elements of an array (C13), the key of a model value behind two
 pointers and OR next to a quote or comment (C02), a handle with an empty WHERE clause as grouped condition (C09),
 the Connection block (C06 / C04 / C14), joins left behind by Scan / Rows / Row (C06), `DO NOTHING WHERE` (C10),
-Unscoped belongs-to Clear (C08); plus KF-C05-1 and KF-C17-19..22.
+Unscoped belongs-to Clear (C08), settings a join table takes over from its key fields (C20), FirstOrCreate+Assign on an Or
+chain (C16), the model's key under a deleted value given by value (C02), nil elements of a pointer array under hooks (C13), the
+statement map read without its lock (C14); plus KF-C05-1 and KF-C17-19..22. One more change was retired through such a repair (C16-r).
 ''')
 p = '/verif/DESIGN.md'
 s = open(p).read()
